@@ -401,7 +401,10 @@ impl<'a> CRTDetBuilder<'a> {
                 p -= 30;
             }
             primes.push(p);
-            self.echelons.push(GFpEchelonBuilder::new(p));
+            // Echelons are cached between calls: echelons[i] is for the i-th prime.
+            if self.echelons.len() == modp.len() {
+                self.echelons.push(GFpEchelonBuilder::new(p));
+            }
             let mp = &mut self.echelons[modp.len()];
             if mp.basis.len() > self.rows.len() {
                 mp.truncate(self.rows.len());
